@@ -1,13 +1,12 @@
 SPECIFICATION Spec
 CONSTANTS
   Names = {"a.test", "10.0.0.1", "::1"}
-  Clients = {c1, c2}
+  Clients = {c1, c2, c3}
   Cap = 1
   TTL = 5
   Validity = 2
-  MaxClock = 6
+  MaxClock = 5
   NoReverify = FALSE
   KeyIgnoresName = FALSE
-INVARIANTS ServedValid CacheHoldsOwnName CapacityRespected
-VIEW VIEW_
+CONSTRAINT Emit
 CHECK_DEADLOCK FALSE
